@@ -81,6 +81,50 @@ def run_e2e(args):
             shutil.rmtree(aroot, ignore_errors=True)
         except BaseException as e:  # noqa: BLE001
             rec["runs"].append({"T": 2, "kind": "layouts", "error": f"{type(e).__name__}: {str(e)[:150]}"})
+        # kinds of payload: shards of constant data (all zeros / one repeated byte: they compress by a factor of a thousand), of
+        # incompressible data, and one shard whose serialized content exceeds 16 MiB — whatever the examples hold and however large
+        # or compressible a shard is, both readers yield the same examples
+        try:
+            import hashlib
+            from sedpack.io import Attribute
+            import numpy as np
+            proot = root + "_payload"
+            M = 1 << 20
+            pds = sp.mk(proot, fmt="fb", comp=a["comp"], eps=2, attrs=[Attribute(name="a", dtype="int32", shape=(2,)), Attribute(name="m", dtype="uint8", shape=(M,))])
+            prng = np.random.default_rng(a.get("pseed", 0))
+            with pds.filler() as f:
+                for i, kindp in enumerate(["zeros", "zeros", "const", "const", "random", "zeros", "ramp"]):
+                    m = {"zeros": np.zeros(M, np.uint8), "const": np.full(M, 0xAB, np.uint8), "random": prng.integers(0, 256, M, dtype=np.uint8),
+                         "ramp": (np.arange(M) % 251).astype(np.uint8)}[kindp]
+                    f.write_example(values={"a": np.array([i, i], dtype=np.int32), "m": m}, split="train")
+            pds = Dataset(proot)
+            def canonp(e):
+                return [sp.ident(e), hashlib.md5(np.ascontiguousarray(np.asarray(e["m"])).tobytes()).hexdigest()]
+            py_ex = [canonp(e) for e in pds.as_numpy_iterator(split="train", repeat=False, shuffle=0)]
+            for T in (1, 3):
+                try:
+                    ru_ex = [canonp(e) for e in pds.as_numpy_iterator_rust(split="train", repeat=False, shuffle=0, file_parallelism=T)]
+                    rec["runs"].append({"T": T, "kind": "payloads", "same": py_ex == ru_ex, "n": len(py_ex), "n_rust": len(ru_ex)})
+                except BaseException as e:  # noqa: BLE001
+                    rec["runs"].append({"T": T, "kind": "payloads", "n": len(py_ex), "error": f"{type(e).__name__}: {str(e)[:150]}"})
+            shutil.rmtree(proot, ignore_errors=True)
+            if a.get("huge"):
+                hroot = root + "_huge"
+                H = 9 << 20
+                hds = sp.mk(hroot, fmt="fb", comp=a["comp"], eps=2, attrs=[Attribute(name="a", dtype="int32", shape=(2,)), Attribute(name="m", dtype="uint8", shape=(H,))])
+                with hds.filler() as f:
+                    for i in range(3):
+                        f.write_example(values={"a": np.array([i, i], dtype=np.int32), "m": prng.integers(0, 256, H, dtype=np.uint8)}, split="train")
+                hds = Dataset(hroot)
+                py_ex = [canonp(e) for e in hds.as_numpy_iterator(split="train", repeat=False, shuffle=0)]
+                try:
+                    ru_ex = [canonp(e) for e in hds.as_numpy_iterator_rust(split="train", repeat=False, shuffle=0, file_parallelism=2)]
+                    rec["runs"].append({"T": 2, "kind": "payloads", "huge": True, "same": py_ex == ru_ex, "n": len(py_ex), "n_rust": len(ru_ex)})
+                except BaseException as e:  # noqa: BLE001
+                    rec["runs"].append({"T": 2, "kind": "payloads", "huge": True, "n": len(py_ex), "error": f"{type(e).__name__}: {str(e)[:150]}"})
+                shutil.rmtree(hroot, ignore_errors=True)
+        except BaseException as e:  # noqa: BLE001
+            rec["runs"].append({"T": 0, "kind": "payloads", "error": f"building: {type(e).__name__}: {str(e)[:150]}"})
         # several Rust-backed passes alive at the same time with staggered life times: A and B open, A ends while B is
         # mid-pass, C opens, B and C are consumed alternately (train / validation passes interleaved in one process)
         if nsh >= 2:
@@ -290,7 +334,7 @@ def run(ctx):
         if i % 2:
             plan.append({"sub": "a", "writes": [(0, eps + 1)]})      # uneven shard sizes, nested lists
         cases.append({"root": str(ctx.scratch / f"c15_{i}"), "comp": comp, "eps": eps, "plan": plan, "threads": [1, 2, -0, -3] if ctx.thorough else [1, 2, -3],
-                      "drops": [0, 1, 3]})
+                      "drops": [0, 1, 3], "huge": comp in ("GZIP", "ZLIB"), "pseed": rng.randrange(1 << 30)})
     recs = child.call("harness.checks.c15", "run_e2e", cases, timeout=1800)
     nruns = 0
     for r in recs:
@@ -298,7 +342,14 @@ def run(ctx):
             nruns += 1
             sig = {"kind": run_["kind"], "level": "extension", "T_lt_n": run_["T"] < r["nshards"]}
             if "error" in run_:
-                ctx.report(dict(sig, what="error"), f"as_numpy_iterator_rust(T={run_['T']}) raised {run_['error']}", {"case": r["case"], "run": run_}); continue
+                what = ("payloads (constant / incompressible 1 MiB arrays" + (", one shard above 16 MiB" if run_.get("huge") else "") + "): ") if run_["kind"] == "payloads" else ""
+                ctx.report(dict(sig, what="error"), f"{what}as_numpy_iterator_rust(T={run_['T']}, {r['case']['comp'] or 'no'} compression) raised {run_['error']} where the Python reader yields {run_.get('n', '?')} examples" if what else
+                           f"as_numpy_iterator_rust(T={run_['T']}) raised {run_['error']}", {"case": r["case"], "run": run_}); continue
+            if run_["kind"] == "payloads":
+                if not run_["same"]:
+                    ctx.report(dict(sig, what="payload-values"), f"the Rust reader and the Python reader disagree on examples holding constant / incompressible 1 MiB arrays ({r['case']['comp'] or 'no'} compression; rust {run_['n_rust']} vs python {run_['n']} examples)",
+                               {"case": r["case"], "run": run_})
+                continue
             if run_["kind"] == "layouts":
                 if not run_["same"]:
                     ctx.report(dict(sig, what="attribute-values"), f"the Rust reader and the Python reader disagree on attribute values (several attributes, explicit byte-order dtypes): {json.dumps(run_['first_diff'])[:300]}",
@@ -332,7 +383,7 @@ def run(ctx):
         "traces_validated_against_impl": len(lines) - len(corr_bad),
         "rule": "parallel_map via a cargo integration test: n in {0,1,2,3,5,8,13} x threads in {1,2,3,4,9}, item-dependent delays (out-of-order completion), early drop after k in {0,1,2,n/2} "
                 "with thread count from /proc/self/task, a consumer stalling 2.6 s; the rebuilt extension: as_numpy_iterator_rust vs as_numpy_iterator for threads in {1,2,#shards,#shards+3}, every "
-                "supported compression, uneven shard sizes, nested lists, shuffled multiset, early close; model outputs under pseudo-random schedules compared with both",
+                "supported compression, uneven shard sizes, nested lists, shuffled multiset, early close, payload kinds (all-zero / constant / incompressible 1 MiB arrays, a shard above 16 MiB); model outputs under pseudo-random schedules compared with both",
         "samples": lines[:2] + [{"case": recs[0]["case"], "run": recs[0]["runs"][0]}],
         "input_distribution": {"cargo_cases": collections.Counter(l["kind"] for l in lines), "extension_runs": nruns, "cargo_rc": rc},
     })
